@@ -8,7 +8,7 @@ EXTENDS Rolling
 CONSTANT Goal
 
 Reached ==
-  CASE Goal = "retry"      -> \E w \in Writers : pc[w] = "p21" /\ wFile[w] # NULL /\ ~handles[wFile[w]].open
+  CASE Goal = "retry"      -> retried \cap acked # {} /\ Idle
     [] Goal = "lost"       -> lost # {} /\ Idle
     [] Goal = "leak"       -> Idle /\ running /\ Cardinality(OpenHandles) > 2
     [] Goal = "backwards"  -> \E w \in Writers : pc[w] = "p7" /\ Ivl(wNow[w]) < marker
